@@ -246,6 +246,11 @@ impl Session {
     }
 
     #[cfg(feature = "verif")]
+    pub fn verif_try_recv_tracker_cmd(&mut self) -> Option<TrackerCmd> {
+        self.tracker.rx_ch.try_recv().ok()
+    }
+
+    #[cfg(feature = "verif")]
     pub fn verif_try_recv_extractor_cmd(&mut self) -> Option<ExtractorCmd> {
         self.extractor.rx_ch.try_recv().ok()
     }
